@@ -27,10 +27,30 @@ NCPU = os.cpu_count() or 4
 _scratch_dirs = []
 
 
+_ROOT = None
+
+
+def _sweep_stale():
+    """Scratch roots of runs that were killed (their atexit never ran): remove those whose process is gone."""
+    base = tempfile.gettempdir()
+    try:
+        names = os.listdir(base)
+    except OSError:
+        return
+    for nm in names:
+        m = re.match(r"selfies_verif_run_(\d+)_", nm)
+        if m and not os.path.exists("/proc/%s" % m.group(1)):
+            shutil.rmtree(os.path.join(base, nm), ignore_errors=True)
+
+
 def scratch(prefix="selfies_verif_"):
-    d = tempfile.mkdtemp(prefix=prefix)
-    _scratch_dirs.append(d)
-    return d
+    """A fresh scratch directory under this process's scratch root (removed at exit)."""
+    global _ROOT
+    if _ROOT is None or not os.path.isdir(_ROOT):
+        _sweep_stale()
+        _ROOT = tempfile.mkdtemp(prefix="selfies_verif_run_%d_" % os.getpid())
+        _scratch_dirs.append(_ROOT)
+    return tempfile.mkdtemp(prefix=prefix, dir=_ROOT)
 
 
 def _cleanup():
